@@ -97,6 +97,9 @@ func metadataValueChangeToProto(change *resource.ValueChange) *traits.PullMetada
 // special handling for updating a *traits.Metadata
 // because Traits is supposed to be a map-like slice
 func metadataMergeInterceptor(old, new proto.Message) {
+	// old is the live stored message, also held by earlier readers and change events:
+	// its Traits slice is re-used, merged into and sorted below, so work on a copy.
+	old = proto.Clone(old)
 	clean := proto.Clone(new).(*traits.Metadata)
 	// handle trait updates specially
 	cleanTraits := clean.Traits
